@@ -118,6 +118,80 @@ structure Inv (kind : Nat → Kind) (s : St) : Prop where
 
 end Lts
 
+/-! ## The state mutex and the blocking write of the closing tag
+
+`Lts` above abstracts from `stateMutex`.  This system keeps it: closers (`Close`, `sendError`,
+`Serve`'s deferred `Close`) and readers (`lockReadCloser.Token`, `State()`: they take the read
+side of `stateMutex` for a moment).  The write of the closing tag is a control point of its
+own: on a synchronous transport it blocks until the peer reads, for as long as the environment
+likes (`unblock` is an environment step).
+
+`heldDuringWrite = true` is the lock shape before the repair: `Close` takes `stateMutex` for
+its whole body, so it is held while the write blocks.  `false` is the repaired shape:
+`closeSession` takes it only to test and set the bit. -/
+namespace RwLts
+
+inductive Kind | closer | reader
+  deriving DecidableEq, Repr
+
+inductive Pc
+  | idle
+  | hasOut          -- closer: holds the output lock
+  | hasState        -- closer: holds output lock and state mutex, about to test and set the bit
+  | writing         -- closer: bit set, inside the connection write (may block)
+  | done
+  deriving DecidableEq, Repr
+
+structure St where
+  closed : Bool
+  outLock : Option Nat
+  stateLock : Option Nat      -- write side (readers hold the read side only within one step)
+  tags : Nat                  -- closing tags handed to the connection
+  pc : Nat → Pc
+
+def init : St := ⟨false, none, none, 0, fun _ => .idle⟩
+
+def setPc (pc : Nat → Pc) (i : Nat) (v : Pc) : Nat → Pc := fun j => if j = i then v else pc j
+
+/-- next action of goroutine `i`.  For a closer in `writing` the step is the *completion* of the
+write: it is enabled only when the environment lets the write through (`canWrite`). -/
+def step (heldDuringWrite : Bool) (kind : Nat → Kind) (canWrite : Bool) (s : St) (i : Nat) : Option St :=
+  match kind i, s.pc i with
+  | .reader, .idle =>
+    -- RLock, look at the bits, RUnlock: possible iff nobody holds the write side
+    if s.stateLock = none then some { s with pc := setPc s.pc i .done } else none
+  | .closer, .idle =>
+    if s.outLock = none then some { s with outLock := some i, pc := setPc s.pc i .hasOut } else none
+  | .closer, .hasOut =>
+    if s.stateLock = none then some { s with stateLock := some i, pc := setPc s.pc i .hasState } else none
+  | .closer, .hasState =>
+    if s.closed then some { s with stateLock := none, outLock := none, pc := setPc s.pc i .done }
+    else some { s with closed := true, stateLock := if heldDuringWrite then some i else none,
+                        pc := setPc s.pc i .writing }
+  | .closer, .writing =>
+    if canWrite then some { s with tags := s.tags + 1, stateLock := none, outLock := none, pc := setPc s.pc i .done }
+    else none
+  | _, _ => none
+
+/-- a schedule: goroutine index and whether the environment lets a pending write complete -/
+def run (h : Bool) (kind : Nat → Kind) (s : St) : List (Nat × Bool) → St
+  | [] => s
+  | (i, w) :: rest =>
+    match step h kind w s i with
+    | some s' => run h kind s' rest
+    | none => run h kind s rest
+
+/-- the lock invariant of the repaired shape: whoever holds the state mutex is a closer about to
+test the bit — never one inside the connection write -/
+structure Inv (s : St) : Prop where
+  holder : ∀ i, s.stateLock = some i → s.pc i = .hasState
+  tags : s.tags ≤ 1
+  tagsOpen : s.closed = false → s.tags = 0
+  outHolder : ∀ i, (s.pc i = .hasOut ∨ s.pc i = .hasState ∨ s.pc i = .writing) → s.outLock = some i
+  writingTags : ∀ i, s.pc i = .writing → s.tags = 0 ∧ s.closed = true
+
+end RwLts
+
 /-! ## Histories -/
 namespace Hist
 
